@@ -74,14 +74,24 @@ pub fn run_case(env: &Env, ctx: &mut Ctx, idx: u64) {
         defines.push(("A".to_string(), None));
         defines.push(("WIDTH2".to_string(), Some((vec![], Some("4".to_string())))));
     }
+    // include paths: usually the directory of the file; sometimes none or an unrelated one, so that a header that
+    // sits next to the source is reachable only if an entry point (wrongly) searches the source's own directory
+    let inc_paths: Vec<std::path::PathBuf> = match rng.below(5) {
+        0 => vec![],
+        1 => vec![dir.join("elsewhere")],
+        _ => vec![dir.clone()],
+    };
     ctx.count("inputs", 1);
+    if inc_paths.first() != Some(&dir) {
+        ctx.count("inputs_with_unreachable_header", 1);
+    }
     ctx.count(&format!("kind:{}", kind), 1);
     let witness = |d: &str, cfg: &Cfg| Obj::new().s("contents", &body).s("kind", kind).raw("config", &cfg.json()).s("detail", d).done();
     let mut comparisons = 0u64;
     // parse family: all values of ignore_include x allow_incomplete
     for ii in [false, true] {
         for ai in [false, true] {
-            let cfg = Cfg { defines: defines.clone(), include_paths: vec![dir.clone()], ignore_include: ii, allow_incomplete: ai, strip_comments: false };
+            let cfg = Cfg { defines: defines.clone(), include_paths: inc_paths.clone(), ignore_include: ii, allow_incomplete: ai, strip_comments: false };
             let a = canon_parse(parse_file(gram, &path, &cfg));
             let b = canon_parse(parse_str(gram, &body, &path, &cfg));
             let c = match pp_file(&path, &cfg) {
@@ -118,7 +128,7 @@ pub fn run_case(env: &Env, ctx: &mut Ctx, idx: u64) {
     let mut outs: Vec<PpCanon> = Vec::new();
     for sc in [false, true] {
         for ii in [false, true] {
-            let cfg = Cfg { defines: defines.clone(), include_paths: vec![dir.clone()], ignore_include: ii, allow_incomplete: false, strip_comments: sc };
+            let cfg = Cfg { defines: defines.clone(), include_paths: inc_paths.clone(), ignore_include: ii, allow_incomplete: false, strip_comments: sc };
             let a = canon_pp_res(pp_file(&path, &cfg));
             let b = canon_pp_res(pp_str(&body, &path, &cfg));
             comparisons += 1;
@@ -130,7 +140,7 @@ pub fn run_case(env: &Env, ctx: &mut Ctx, idx: u64) {
         }
     }
     // sensitivity of the input: do the four flag combinations give pairwise different results?
-    if kind == "include+comment+macro" {
+    if kind == "include+comment+macro" && inc_paths.first() == Some(&dir) {
         // (strip, ignore): outs = [(F,F), (F,T), (T,F), (T,T)]; a swap of the two flags maps (T,F) onto (F,T)
         let distinct = outs[1] != outs[2] && outs[0] != outs[2] && outs[0] != outs[1];
         if distinct {
